@@ -263,6 +263,10 @@ func Exec(db *DB, args []string) Reply {
 				return un
 			}
 		}
+		if a[2] == "" {
+			// refused before anything is created (sjson: "path cannot be empty")
+			return errReply(cmd, "path cannot be empty")
+		}
 		if !simplePath(a[2]) {
 			return un
 		}
